@@ -154,6 +154,7 @@ def oracle_case(case: dict) -> Failure | list[Failure] | None:  # noqa: C901
 
         for t in range(case["ticks"]):
             accepted_cancel = []
+            accepted_force = []
             for op in (case["plan"][t] if t < len(case["plan"]) else []):
                 if op[0] == "tag":
                     run.set_tag(op[1], op[2])
@@ -186,6 +187,9 @@ def oracle_case(case: dict) -> Failure | list[Failure] | None:  # noqa: C901
                     STATS[op[0] + "_" + ("accepted" if r == "ok" else "rejected")] += 1
                     if r == "ok" and op[0] == "cancel":
                         accepted_cancel.append(w["id"])
+                    if r == "ok" and op[0] == "force" and \
+                            next(x for x in run.program_nodes() if x.id == w["id"]).forced:
+                        accepted_force.append(w["id"])
             snap = run.tick()
             STATS["ticks"] += 1
             if snap["raised"]:
@@ -210,9 +214,12 @@ def oracle_case(case: dict) -> Failure | list[Failure] | None:  # noqa: C901
                 if (wid in resettable or has_calls) and _cond_true(w["arg"], tags):
                     # orphaned generators of a node inside an Alarm/Macro can activate and start it within one tick
                     s["true_since"] = True
-                if n["forced"]:
-                    s["forced_seen"] = True
                 fixed = wid not in resettable and not has_calls   # no reset from outside can clear this node's flags
+                # A force counts once: for a node that nothing resets from outside, one accepted force request pays for
+                # one body run (the flag itself is not trusted: it must not survive the re-arm).  Nodes inside an
+                # Alarm / Macro: the flag, sticky.
+                if wid in accepted_force or (not fixed and n["forced"]):
+                    s["forced_seen"] = True
                 if wid in accepted_cancel and s["cancelled_at"] is None:
                     s["cancelled_at"] = t             # accepted before tick t ran
                 if not fixed and s["cancelled_at"] is not None and not n["cancelled"] and not pn["cancelled"]:
@@ -223,10 +230,12 @@ def oracle_case(case: dict) -> Failure | list[Failure] | None:  # noqa: C901
                     STATS["body_starts"] += started_now
                     if s["starts"] > 1:
                         STATS["repeated_starts(alarm or nested)"] += 1
-                    if not s["true_since"] and not s["forced_seen"] and not pn["forced"]:
+                    if not s["true_since"] and not s["forced_seen"] and not (pn["forced"] and not fixed):
                         return Failure("body-started-without-true-condition", case,
-                                       f"tick {t}: {w['name']}: {w['arg']} (line {w['line']}) started its body but its "
-                                       f"condition was not true on any tick since it was armed, and it was not forced")
+                                       f"tick {t}: {w['name']}: {w['arg']} (line {w['line']}) started its body (run "
+                                       f"{s['starts']}) but its condition was not true on any tick since it was armed, and no "
+                                       f"force request was accepted for it since then: body runs exceed the number of times "
+                                       f"the condition became true plus the number of accepted force requests")
                     # -- (c) not after it was cancelled
                     # An accepted cancel (the request returned without error; the run log shows Cancelled) is final for a
                     # node that nothing resets: no body start in the tick after the request or in any later one.
@@ -418,6 +427,18 @@ def hand_cases() -> list[dict]:
                 plan[t_true] = [["tag", "T0", 1], ["tag", "T1", 1]]
                 plan[t0] = plan[t0] + [["cancelall"]]
                 out.append({"pcode": "Base: s\n" + body_, "ticks": 48, "plan": plan})
+    # force an awaiting Alarm / Watch whose condition stays FALSE, then keep ticking over several re-arm cycles:
+    # exactly one body run per accepted force request
+    for pcode in ("Alarm: T0 > 0\n    Mark: a\nMark: c\n", "Alarm: T0 > 0\n    Mark: a\n    Wait: 0.5s\n    Mark: b\nMark: c\n",
+                  "Block: B\n    Alarm: T0 > 0\n        Mark: a\n    Wait: 8s\nMark: c\n", "1.0 Alarm: T0 > 0\n    Mark: a\nMark: c\n",
+                  "Watch: T0 > 0\n    Mark: a\nMark: c\n", "Alarm: T0 > 0\n    Mark: a\nAlarm: T1 > 0\n    Mark: b\n"):
+        for t0 in range(2, 14, 2):
+            for again in (None, 25):
+                plan = [[] for _ in range(70)]
+                plan[t0] = [["force", 0]]
+                if again:
+                    plan[t0 + again] = [["force", 0], ["force", 1]]
+                out.append({"pcode": "Base: s\n" + pcode, "ticks": 70, "plan": plan})
     # cancel / force a waiting Watch and Alarm at every offset, condition true afterwards
     for pcode in ("Watch: T0 > 0\n    Mark: a\n    Mark: b\nMark: c\n", "Alarm: T0 > 0\n    Mark: a\nMark: c\n",
                   "1.0 Watch: T0 > 0\n    Mark: a\nMark: c\n"):
